@@ -47,6 +47,7 @@ fn main() {
             let plan = match prop {
                 "C15" => props::plan_c15(tier, seed),
                 "C12" => props::plan_c12(tier, seed),
+                "C07" => props::plan_c07(tier, seed),
                 "C01" | "C02" => props::plan_c01(tier, seed, if thorough { 6000 } else { 400 }),
                 "C03" | "C04" | "C05" | "C06" | "C09" | "C10" | "C11" | "C13" | "C17" | "C18" => {
                     props::plan_history(prop, tier, seed, if thorough { 20000 } else { 600 })
@@ -56,6 +57,7 @@ fn main() {
                     std::process::exit(2);
                 }
             };
+            let (rule, exhaustive, per_line) = (plan.rule.clone(), plan.exhaustive, plan.per_line);
             let t0 = std::time::Instant::now();
             let o = run::run_cases(driver, plan.cases, workers, 3);
             let j = run::outcome_json(
@@ -63,7 +65,7 @@ fn main() {
                 tier,
                 seed,
                 &o,
-                serde_json::json!({"rule": plan.rule, "exhaustive": plan.exhaustive, "wall_s": t0.elapsed().as_secs_f64()}),
+                serde_json::json!({"rule": rule, "exhaustive": exhaustive, "per_line": per_line, "wall_s": t0.elapsed().as_secs_f64()}),
             );
             std::fs::write(out, serde_json::to_string_pretty(&j).unwrap()).unwrap();
             eprintln!(
